@@ -41,7 +41,7 @@ Definition c02_send (b : cfg) (i : info) (s' : st) (new_state : sstate) : bool :
   let old_type := i_old_type i in
   let send0 :=
     if i_hard_change i && negb (stype_eqb old_type Soft && is_ok k new_state) then true
-    else if vol && stype_eqb ty Hard then true else false in
+    else if vol && stype_eqb ty Hard && negb (stype_eqb old_type Soft && is_ok k new_state) then true else false in   (* /repo b9a7cb5 *)
   let send1 := if is_ok k old_state && stype_eqb old_type Soft then false else send0 in
   if vol && is_ok k old_state && is_ok k new_state then false else send1.
 
